@@ -118,6 +118,12 @@ fn finish_check(prop: &str, tier: &str, batch_seed: u64, t0: Instant, main: Batc
 
     let mut all: Vec<(String, J, u64)> = main.violations.iter().map(|(id, (doc, n))| (id.clone(), doc.clone(), *n)).collect();
     all.extend(extra_violations);
+    // process-level findings of C07 carry whole programs: shrink them by re-running the real binary
+    for (id, doc, _) in all.iter_mut() {
+        if prop == "C07" && doc.get("layer_b").is_some() && !doc.bool_of("minimised") && doc.str_of("clause").starts_with("process-") && doc.str_of("clause") != "process-hang" {
+            *doc = layerb::minimise_c07_process_doc(doc, id, 200);
+        }
+    }
     // crashes and hangs were attributed by the supervisor and are not minimised yet: shrink them by
     // re-running candidates in watched child processes
     for (id, doc, _) in all.iter_mut() {
